@@ -349,13 +349,14 @@ func normalizeHeaderValue(ov, ob []byte, headerLength int) (nv, nb []byte, nhl i
 	if length <= 0 {
 		return
 	}
-	write := 0
-	shrunk := 0
+	// ob is the peeked connection buffer: it is parsed again from its first byte when the
+	// header block turns out to be incomplete, and it still holds the bytes that follow the
+	// header block. So the unfolded value is built in a copy and ob is left untouched.
+	nv = make([]byte, 0, length)
 	lineStart := false
 	for read := 0; read < length; read++ {
 		c := ov[read]
 		if c == '\r' || c == '\n' {
-			shrunk++
 			if c == '\n' {
 				lineStart = true
 			}
@@ -365,27 +366,15 @@ func normalizeHeaderValue(ov, ob []byte, headerLength int) (nv, nb []byte, nhl i
 		} else {
 			lineStart = false
 		}
-		nv[write] = c
-		write++
+		nv = append(nv, c)
 	}
 
-	nv = nv[:write]
-	copy(ob[write:], ob[write+shrunk:])
-
-	// Check if we need to skip \r\n or just \n
-	skip := 0
-	if ob[write] == '\r' {
-		if ob[write+1] == '\n' {
-			skip += 2
-		} else {
-			skip++
-		}
-	} else if ob[write] == '\n' {
-		skip++
+	// ov is the head of ob without its trailing blanks and line terminator
+	nb = ob[length:]
+	if n := bytes.IndexByte(nb, '\n'); n >= 0 {
+		nb = nb[n+1:]
 	}
-
-	nb = ob[write+skip : len(ob)-shrunk]
-	nhl = headerLength - shrunk
+	nhl = headerLength
 	return
 }
 
